@@ -20,6 +20,9 @@ import (
 
 type binCase struct {
 	Steps []step `json:"steps"` // the four requests, unknown types, malformed frames; a terminate is appended
+	// Blocked: the bootstrap holds a second service whose port is taken by a foreign listener (no SO_REUSEPORT): its
+	// listener is still in its bind-retry loop when the hand-over requests arrive
+	Blocked bool `json:"blocked,omitempty"`
 }
 
 func dialOK(addr string) bool {
@@ -88,6 +91,15 @@ func checkBinary(c binCase, dir string) (nt bool, v *verdict) {
 		return false, nil
 	}
 	defer echo.Close()
+	blockedPort := 0
+	if c.Blocked {
+		bl, err := net.Listen("tcp4", "127.0.0.1:0")
+		if err != nil {
+			return false, nil
+		}
+		defer bl.Close()
+		blockedPort = bl.Addr().(*net.TCPAddr).Port
+	}
 	var cmd *exec.Cmd
 	var adminAddr, svcAddr string
 	var logf *os.File
@@ -125,6 +137,9 @@ static_services:
           ip: %s
           port: %s
 `, adminPort, svcPort, host, port)
+		if c.Blocked {
+			yaml += blockedService(blockedPort, host, port)
+		}
 		cfgFile := filepath.Join(dir, "bootstrap.yaml")
 		if err := os.WriteFile(cfgFile, []byte(yaml), 0o644); err != nil {
 			return false, nil
@@ -297,12 +312,29 @@ static_services:
 	return nt, nil
 }
 
+// blockedService is the bootstrap text of a TCP service on a port somebody else holds.
+func blockedService(port int, backendHost, backendPort string) string {
+	return fmt.Sprintf(`  - name: blocked
+    config:
+      listener:
+        address:
+          ip: 127.0.0.1
+          port: %d
+      protocol: TCP
+    endpoints:
+      - address:
+          ip: %s
+          port: %s
+`, port, backendHost, backendPort)
+}
+
 func TestBinary(t *testing.T) {
 	if os.Getenv("VERIF_SAMARITAN_BIN") == "" {
 		t.Skip("no binary")
 	}
 	rapid.Check(t, func(rt *rapid.T) {
 		var c binCase
+		c.Blocked = rapid.IntRange(0, 2).Draw(rt, "blocked") == 0
 		for i, n := 0, rapid.IntRange(0, 6).Draw(rt, "steps"); i < n; i++ {
 			var st step
 			switch x := rapid.IntRange(0, 9).Draw(rt, "kind"); {
